@@ -66,3 +66,30 @@ def pp_exact_fit_scenario(seed):
     for k in range(late):
         arrivals[rng.randint(2, 8)].append(fill + 1 + k)
     return {"layer": "S", "algo": "priority-pool", "cfg": cfg, "pipes": pipes, "steps": [], "arrivals": arrivals}
+
+
+def pp_cutoff_scenario(seed):
+    """priority-pool: a query retry that has waited a round (its pool was full) reaches the 50 % cut-off and is abandoned while newer query and
+    interactive work is queued behind it and the shared pool has room again: the newer query work must be served before the interactive work"""
+    rng = random.Random(seed)
+    tps = rng.choice([1, 2, 4])
+    cfg = {"tps": tps, "multi": True, "over": False, "npools": 2, "cpus": 2, "ram": fstr(20)}
+    dx = rng.choice([2, 3])
+    small = F(1, 64)
+    pipes = [
+        {"prio": rng.choice([1, 2]), "ops": [gen_e.simple_op(tps, dx, fixed=small)]},            # X: a tenth of the pool, short
+        {"prio": 1, "ops": [gen_e.simple_op(tps, 3, fixed=F(19))]},                               # B: takes the rest (18 GB), needs 19: OOM
+        {"prio": 1, "ops": [gen_e.simple_op(tps, rng.randint(10, 16), fixed=small)]},             # Y: arrives next round, takes B's room, long
+        {"prio": 1, "ops": [gen_e.simple_op(tps, 2, fixed=small)]},                               # Q2: new query work behind B's retry
+        {"prio": 2, "ops": [gen_e.simple_op(tps, 2, fixed=small)]},                               # I1: interactive work
+    ]
+    nticks = 30
+    arrivals = [[] for _ in range(nticks)]
+    arrivals[0] = [0, 1]
+    arrivals[1] = [2]
+    late = dx + rng.choice([0, 0, 0, 1])     # the round in which X's room is free again is the one in which B's retry is looked at
+    arrivals[late] = rng.choice([[3, 4], [4, 3]])
+    if rng.random() < 0.5:
+        pipes.append({"prio": 3, "ops": [gen_e.simple_op(tps, 4, fixed=small)]})
+        arrivals[rng.randint(0, 5)].append(5)
+    return {"layer": "S", "algo": "priority-pool", "cfg": cfg, "pipes": pipes, "steps": [], "arrivals": arrivals}
